@@ -3,9 +3,9 @@ From Coq Require Import ZArith Lia ZifyBool.
 From PintV Require Import Model.UC Model.Eval Model.Grammar.
 Open Scope string_scope.
 
-(** * One loop iteration of [go], case by case *)
+(** * One loop iteration of [go_p], case by case, for both values of the two switches *)
 Section Steps.
-  Context (tbl : list (string * Z)) (toks : list tok).
+  Context (pa pe : bool) (tbl : list (string * Z)) (toks : list tok).
 
   (** the tail of the loop body as a top-level function *)
   Definition tail_of (f depth : nat) (prev : string) (result' : option tree) (index' : nat)
@@ -17,7 +17,7 @@ Section Steps.
         else match result' with None => Err EAssert | Some r => Ok (r, index') end
     | Some _ =>
         if Nat.leb (ntoks toks) (index' + 1) then Err EUnexpectedEnd
-        else go tbl toks f (index' + 1) depth prev result'
+        else go_p pa pe tbl toks f (index' + 1) depth prev result'
     end.
 
   Definition is_atom_tok (t : tok) : bool :=
@@ -25,14 +25,14 @@ Section Steps.
 
   Lemma go_atom_none f i d p a :
     tok_at toks i = Some a → is_atom_tok a = true →
-    go tbl toks (S f) i d p None = tail_of f d p (Some (Leaf a)) i.
+    go_p pa pe tbl toks (S f) i d p None = tail_of f d p (Some (Leaf a)) i.
   Proof. intros H Ha. unfold tail_of. simpl. rewrite H. destruct a; try discriminate; reflexivity. Qed.
 
   Lemma go_atom_some f i d p a r :
     tok_at toks i = Some a → is_atom_tok a = true →
-    go tbl toks (S f) i d p (Some r) =
+    go_p pa pe tbl toks (S f) i d p (Some r) =
       if Z.leb (prio_d tbl "") (prio_d tbl p) then Ok (r, pred i)
-      else match go tbl toks f i (d + 1) "" None with
+      else match go_p pa pe tbl toks f i (d + 1) "" None with
            | Err e => Err e
            | Ok (rt, i') => tail_of f d p (Some (Eval.Bin "" r rt)) i'
            end.
@@ -40,7 +40,7 @@ Section Steps.
 
   Lemma go_close f i d p result :
     tok_at toks i = Some (TOp ")") →
-    go tbl toks (S f) i d p result =
+    go_p pa pe tbl toks (S f) i d p result =
       if String.eqb p "<none>" then Err EUnopened
       else match result with
            | None => Err EAssert
@@ -48,27 +48,52 @@ Section Steps.
            end.
   Proof. intros H. simpl. rewrite H. reflexivity. Qed.
 
-  Lemma go_open f i d p result :
+  (** "(" at the start of an operand: the same in both shapes of the branch *)
+  Lemma go_open_none f i d p :
     tok_at toks i = Some (TOp "(") →
-    go tbl toks (S f) i d p result =
-      match go tbl toks f (i + 1) 0 "(" None with
+    go_p pa pe tbl toks (S f) i d p None =
+      match go_p pa pe tbl toks f (i + 1) 0 "(" None with
       | Err e => Err e
       | Ok (rt, i') =>
           match tok_at toks i' with
           | None => Err EIndex
           | Some t =>
               if negb (bool_decide (t = TOp ")")) then Err EWeird
-              else match result with
-                   | Some r => tail_of f d p (Some (Eval.Bin "" r rt)) i'
-                   | None => tail_of f d p (Some rt) i'
-                   end
+              else tail_of f d p (Some rt) i'
           end
       end.
-  Proof. intros H. simpl. rewrite H. reflexivity. Qed.
+  Proof. intros H. unfold tail_of. simpl. rewrite H. destruct pa; reflexivity. Qed.
+
+  (** "(" after a value, as first found (F16): attached whatever the pending operator *)
+  Lemma go_open_some_any f i d p r :
+    pa = true → tok_at toks i = Some (TOp "(") →
+    go_p pa pe tbl toks (S f) i d p (Some r) =
+      match go_p pa pe tbl toks f (i + 1) 0 "(" None with
+      | Err e => Err e
+      | Ok (rt, i') =>
+          match tok_at toks i' with
+          | None => Err EIndex
+          | Some t =>
+              if negb (bool_decide (t = TOp ")")) then Err EWeird
+              else tail_of f d p (Some (Eval.Bin "" r rt)) i'
+          end
+      end.
+  Proof. intros Hpa H. unfold tail_of. simpl. rewrite H. rewrite Hpa. reflexivity. Qed.
+
+  (** "(" after a value, repaired: like a NUMBER/NAME *)
+  Lemma go_open_some_prio f i d p r :
+    pa = false → tok_at toks i = Some (TOp "(") →
+    go_p pa pe tbl toks (S f) i d p (Some r) =
+      if Z.leb (prio_d tbl "") (prio_d tbl p) then Ok (r, pred i)
+      else match go_p pa pe tbl toks f i (d + 1) "" None with
+           | Err e => Err e
+           | Ok (rt, i') => tail_of f d p (Some (Eval.Bin "" r rt)) i'
+           end.
+  Proof. intros Hpa H. unfold tail_of. simpl. rewrite H. rewrite Hpa. reflexivity. Qed.
 
   Lemma go_skip f i d p result t :
     tok_at toks i = Some t → (t = TOther ∨ t = TEnd) →
-    go tbl toks (S f) i d p result = tail_of f d p result i.
+    go_p pa pe tbl toks (S f) i d p result = tail_of f d p result i.
   Proof. intros H [-> | ->]; unfold tail_of; simpl; rewrite H; reflexivity. Qed.
 
   (** an OP token other than the two parentheses *)
@@ -76,20 +101,20 @@ Section Steps.
 
   Lemma go_op f i d p result s :
     tok_at toks i = Some (TOp s) → not_paren s = true →
-    go tbl toks (S f) i d p result =
+    go_p pa pe tbl toks (S f) i d p result =
       match prio tbl s with
       | None => tail_of f d p result i
       | Some pr =>
           match result with
           | Some r =>
-              if Z.leb pr (prio_d tbl p) && negb (String.eqb s "**" || String.eqb s "^")
+              if op_ends pe pr (prio_d tbl p) s
               then Ok (r, pred i)
-              else match go tbl toks f (i + 1) (d + 1) s None with
+              else match go_p pa pe tbl toks f (i + 1) (d + 1) s None with
                    | Err e => Err e
                    | Ok (rt, i') => tail_of f d p (Some (Eval.Bin s r rt)) i'
                    end
           | None =>
-              match go tbl toks f (i + 1) (d + 1) "unary" None with
+              match go_p pa pe tbl toks f (i + 1) (d + 1) "unary" None with
               | Err e => Err e
               | Ok (rt, i') => tail_of f d p (Some (Un s rt)) i'
               end
